@@ -75,8 +75,8 @@ def descendants(parents, s):
     return out
 
 
-def build_skeleton(sk):
-    """Constructs the program with the real constructors. Returns (ins, outs, expect_legal, n_ops_expected or None)."""
+def build_skeleton(sk, as_init=False):
+    """Constructs the program with the real constructors. Returns (ins, outs, expect_legal, extra value or None)."""
     parents, kinds, values = sk
     n = len(kinds)
     children = {s: [t for t in range(1, n) if parents[t - 1] == s] for s in range(n)}
@@ -90,7 +90,10 @@ def build_skeleton(sk):
         for j, (c, dep, uses) in enumerate(values):
             if c == s:
                 base = body_arg if dep else a
-                x = op.relu(base) if j == 0 else op.neg(base)
+                if j == 0 and not dep and as_init:
+                    x = B.initializer(np.array([1, 2], F32))     # an initializer-backed weight: must be lifted like any other value
+                else:
+                    x = op.relu(base) if j == 0 else op.neg(base)
                 if j == 1 and 0 in created:
                     x = op.add(x, created[0])
                     realized['chained'].add(True)
@@ -147,6 +150,10 @@ def placement_oracle(m: onnx.ModelProto):
         return ("block", mm.group(1)) if mm else ("node", path, idx)
 
     def walk(g, path):
+        for t in g.initializer:
+            u = ("initializer", path, t.name)
+            group_path.setdefault(u, path)
+            group_of[t.name] = u
         for idx, n in enumerate(g.node):
             u = unit(n, idx, path)
             group_path.setdefault(u, path)
@@ -271,9 +278,9 @@ def run(run: Run) -> int:
     off = run.rng.randrange(step)
     sks = sks + deep[off::step]
     cases = []
-    for sk in sks:
+    for ski, sk in enumerate(sks):
         try:
-            ins, outs, legal, extra = build_skeleton(sk)
+            ins, outs, legal, extra = build_skeleton(sk, as_init=(ski % 4 == 1))
         except Exception as e:  # construction itself failed (not build): skip, counted
             continue
         meta = {"skeleton": [list(sk[0]), list(sk[1]), [[c, d, list(u)] for c, d, u in sk[2]]], "legal": legal}
